@@ -90,6 +90,10 @@ def ensure_facts(config='q'):
     th = tree_hash()
     out = os.path.join(CACHE, f'facts-{config}-{th}.jsonl')
     if os.path.exists(out):
+        try:
+            os.utime(out)   # eviction is by mtime: a file in use stays
+        except OSError:
+            pass
         return out, th, 0.0
     lockf = open(os.path.join(CACHE, f'lock-{config}'), 'w')
     fcntl.flock(lockf, fcntl.LOCK_EX)
